@@ -57,6 +57,9 @@ Ltac dn_solve := dn_fwd; solve [ eauto 7 with dn ].
 Lemma py_add_dn a b s : py_add a b = Ok s -> DN s.
 Proof. destruct a, b; simpl; intros H; inv_pair H; reflexivity. Qed.
 
+Lemma py_iadd_ok x a s : py_iadd x a = Ok s -> py_add x a = Ok s.
+Proof. unfold py_iadd; destruct x, a; intros H; try exact H; discriminate H. Qed.
+
 (* ---------------------------------------------------------------- one updater *)
 Lemma apply_updater_dn u now c name arg r :
   DN c -> DN arg -> apply_updater u now c name arg = Ok r -> DN r.
@@ -64,6 +67,7 @@ Proof.
   intros Hc Ha H. unfold apply_updater in H.
   destruct u; destruct c; try (inv_pair H; assumption);
     repeat dm H; try (inv_pair H); try assumption;
+    repeat match goal with E : py_iadd _ _ = Ok _ |- _ => apply py_iadd_ok in E end;
     repeat match goal with E : py_add _ _ = Ok _ |- _ => apply py_add_dn in E end;
     dn_solve.
 Qed.
